@@ -104,7 +104,7 @@ theorem leafKVs_congr (A B : ByteArray) (bump pn : Nat) (pg : ByteArray) (es : L
 theorem leafWalk_spec (A : ByteArray) (bump : Nat) :
     ∀ (seps : List (Nat × Nat)) (mk : Array UInt8) (keys ov : Nat) (mkF : Array UInt8) (keys' ov' : Nat),
       leafWalk A bump mk keys ov seps = .ok (mkF, keys', ov') → mk.size = bump →
-      mkF.size = bump ∧ MarksLe mk mkF ∧
+      mkF.size = bump ∧ MarksLe mk mkF ∧ (∀ s ∈ seps, mkF[s.2]! = 1 ∧ s.2 ≠ 0 ∧ s.2 < bump) ∧
       ∀ B : ByteArray, (∀ p : Nat, (mkF[p]! = 1 ∨ mkF[p]! = 2) → pageOf B p = pageOf A p) →
         leafWalk B bump mk keys ov seps = .ok (mkF, keys', ov') ∧ ∀ s ∈ seps, leafKVs B bump s.2 = leafKVs A bump s.2 := by
   intro seps
@@ -113,7 +113,7 @@ theorem leafWalk_spec (A : ByteArray) (bump : Nat) :
     intro mk keys ov mkF keys' ov' h hsz
     simp only [leafWalk, pure, Except.pure, Except.ok.injEq, Prod.mk.injEq] at h
     obtain ⟨rfl, rfl, rfl⟩ := h
-    exact ⟨hsz, MarksLe.refl _, fun B _ => ⟨by simp [leafWalk, pure, Except.pure], fun e he => by cases he⟩⟩
+    exact ⟨hsz, MarksLe.refl _, fun _ he => (by cases he), fun B _ => ⟨by simp [leafWalk, pure, Except.pure], fun e he => by cases he⟩⟩
   | cons s rest ih =>
     obtain ⟨lo, pn⟩ := s
     intro mk keys ov mkF keys' ov' h hsz
@@ -123,7 +123,7 @@ theorem leafWalk_spec (A : ByteArray) (bump : Nat) :
     | ok mk1 =>
       rw [hc] at h
       simp only at h
-      obtain ⟨hs1, hle1, hp1, _, _, _⟩ := claim_spec hc hsz
+      obtain ⟨hs1, hle1, hp1, hpn0, hpnlt, _⟩ := claim_spec hc hsz
       cases hp : pageOf A pn with
       | none => rw [hp] at h; simp [throw, throwThe, MonadExceptOf.throw] at h
       | some pg =>
@@ -149,11 +149,15 @@ theorem leafWalk_spec (A : ByteArray) (bump : Nat) :
                 rw [hw] at h
                 simp only at h
                 obtain ⟨hs2, hle2, hf2⟩ := entriesWalk_spec A bump pn es mk1 ov mk2 ov2 hw hs1
-                obtain ⟨hs3, hle3, hf3⟩ := ih mk2 _ ov2 mkF keys' ov' h hs2
-                refine ⟨hs3, (hle1.trans hle2).trans hle3, fun B hag => ?_⟩
+                obtain ⟨hs3, hle3, hm3, hf3⟩ := ih mk2 _ ov2 mkF keys' ov' h hs2
                 have hpnF : mkF[pn]! = 1 := by
                   have : mk2[pn]! = 1 := by rw [hle2.2 pn (by rw [hp1]; decide), hp1]
                   rw [hle3.2 pn (by rw [this]; decide), this]
+                refine ⟨hs3, (hle1.trans hle2).trans hle3, ?_, fun B hag => ?_⟩
+                · intro x hx
+                  rcases List.mem_cons.1 hx with rfl | hx
+                  · exact ⟨hpnF, hpn0, hpnlt⟩
+                  · exact hm3 x hx
                 have hpB : pageOf B pn = some pg := by rw [hag pn (Or.inl hpnF), hp]
                 obtain ⟨hw2, hv2⟩ := hf2 B (fun p hp2 => hag p (Or.inr (by rw [hle3.2 p (by rw [hp2]; decide), hp2])))
                 obtain ⟨hw3, hv3⟩ := hf3 B hag
